@@ -57,7 +57,7 @@ def _value(ex, m, sv):
 
 def extract(ex, fi, c, entry_vars, m):
     """-> request dict for pyvc/native/replay_run.py, or None"""
-    if m is None or fi.cls is None or fi.kind not in ('method',) or 'self' not in entry_vars:
+    if m is None or fi.cls is None or fi.kind not in ('method', 'setter') or 'self' not in entry_vars:
         return None
     from .engine import SV
     selfv = entry_vars['self']
@@ -84,7 +84,7 @@ def extract(ex, fi, c, entry_vars, m):
     for mod in ('contracts.' + n for n in _contract_modules()):
         cmod = cmod or mod
     ci = ex.reg.contracts[fi.key].index(c)
-    return dict(module=fi.module, cls=fi.cls.name, method=fi.node.name, fields=fields, args=args,
+    return dict(module=fi.module, cls=fi.cls.name, method=fi.node.name, kind=fi.kind, fields=fields, args=args,
                 contract_module='contracts.common', key=fi.key, contract_index=ci)
 
 
